@@ -55,7 +55,11 @@ pub fn seeds_for(width: usize) -> Vec<Vec<MapOp>> {
     let (w, fill) = if width == 16 { (16u8, 28u8) } else { (8u8, 14u8) };
     let ins = |n: u8| (0..n).map(MapOp::Insert).collect::<Vec<_>>();
     let mut v = vec![ins(w + 1), ins(fill), ins(fill / 2)];
-    for removed in [1u8, w / 2, fill / 2, fill - 8, fill - 1] {
+    // (fill - 1: only the last inserted, displaced element remains; fill: every slot is a tombstone)
+    let mut h = ins(w + 1);
+    h.extend((0..w).map(MapOp::Remove));
+    v.push(h);
+    for removed in [1u8, w / 2, fill / 2, fill - 8, fill - 1, fill] {
         let mut h = ins(fill);
         h.extend((0..removed).map(MapOp::Remove));
         v.push(h);
